@@ -1,4 +1,5 @@
 CONFIG = {
+    "gens": ["Aid"],
     "level": "proof",
     "passes": [
         {"name": "codec", "pkg": "c13", "bin": "c13", "driver": "drv_c13"},
